@@ -386,6 +386,18 @@ func akaGetCheck(a *eap.EapAkaPrime, want map[int][]byte, full bool) (desc strin
 			if int(at.GetAttrType()) != t {
 				return fmt.Sprintf("GetAttr(%d).GetAttrType() = %d", t, at.GetAttrType())
 			}
+			// what a caller does who appends 1..3 octets to the value it read back (e.g. to build a longer string from
+			// it): a write into the spare capacity of the returned slice, which is no part of the value.  The message is
+			// unmodified; its later encodings are still compared with the reference.
+			if gv := at.GetValue(); cap(gv) > len(gv) {
+				ext := gv[len(gv):cap(gv)]
+				if len(ext) > 3 {
+					ext = ext[:3]
+				}
+				for i := range ext {
+					ext[i] = 0xde
+				}
+			}
 		}
 	}
 	return ""
